@@ -436,7 +436,11 @@ def headers_for(tier):
     nasty = L.GROUPS["nasty"]
     # atoms with an open known finding live in a header of their own, so that they cannot
     # mask (or slow down the isolation of) anything else
-    hs = [("plain", plain), ("nasty", nasty)] + [("adv-" + a, [a]) for a in L.GROUPS["adversarial"]]
+    # "strings": element {char, wchar_t, unsigned char, signed char} x cv-placement/declarator
+    # {T*, const T*, T*const, const T*const, T*&, const T*&, T[8], const T[8]} (+ typedef of each)
+    # x role {parameter, return, data member}
+    hs = [("plain", plain), ("nasty", nasty), ("strings", L.GROUPS["strings"])] + \
+        [("adv-" + a, [a]) for a in L.GROUPS["adversarial"]]
     if tier == "thorough":
         hs.append(("all-reversed", list(reversed(plain + nasty))))
         hs.append(("interleaved", [x for p in itertools.zip_longest(nasty, plain) for x in p if x]))
